@@ -20,12 +20,13 @@ def _mk(residues, bonds):
 
 
 FIXTURES = {
-    # explicit chain ids 'A' and 'X' plus a chain with the default id (None); serials left at the default
+    # explicit chain ids 'A' and 'X' plus a chain with the default id (None); a deuterium next to a hydrogen (same atomic
+    # number, different element); serials left at the default
     # (None) as in any hand-built topology; one bond across chains
     "chains": _mk(
         [(0, "A", "LIG", 1, "", [("C1", "C", None), ("O1", "O", None)]),
          (1, "X", "MOL", 2, "", [("N1", "N", None)]),
-         (2, None, "XXX", 3, "", [("H1", "H", None), ("H2", "H", None)])],
+         (2, None, "XXX", 3, "", [("H1", "H", None), ("H2", "D", None)])],
         [(0, 1, None, None), (1, 2, None, None), (3, 4, None, None)]),
     # repeated residue numbers, 0 (twice, never at residue index 0) and a negative one; bonds across residues,
     # added in an order that is not sorted by atom index
